@@ -1,5 +1,5 @@
 """C19 — string-valued protocol enums: From/AsRef tables are mutually inverse, fallback verbatim, serde/Display/Ord agree with the string form."""
-import json, os
+import json, os, re
 from .. import dex as D, world as W, mir as M, strenum as S
 from . import tables as T
 
@@ -30,6 +30,7 @@ def calls_of(fn):
 
 def run(ctx):
     thorough = ctx.tier == "thorough"
+    ctx.rule("C19.conversions", "every other string-typed From impl of a string enum (From<String>, From<Box<str>>, ..) delegates to the primary conversion and builds no variant itself")
     fx = ctx.facts("B" if thorough else "A")
     w = W.World(fx, CRATES_B if thorough else CRATES_A)
     enums = S.discover(w)
@@ -106,6 +107,24 @@ def run(ctx):
             cs = calls_of(fn)
             via_from = any(c.startswith(f"<{e} as core::convert::From<") for c in cs) or any(c == d["from"]["path"] for c in cs)
             ctx.check(via_from, "C19.serde", f"C19.serde:{short}:Deserialize", w.where(fn), bad_msg=f"Deserialize does not go through From: {cs[:5]}")
+        # other string-typed conversions delegate to the primary one (a second table could disagree with it, e.g. forget the aliases)
+        prim = d["from"]["path"]
+        for pth, lst in w.fn_index.items():
+            if not pth.startswith(f"<{e} as core::convert::From<") or pth == prim or not pth.endswith(">>::from"):
+                continue
+            src = pth[len(f"<{e} as core::convert::From<"):-len(">>::from")]
+            if not re.search(r"(^|[^\w])(String|str|Cow<'\w+, str>|Box<str>)($|[^\w])", src):
+                continue
+            fn2 = lst[0]
+            if "body" not in fn2:
+                continue
+            cs2 = calls_of(fn2)
+            delegates = any(c.startswith(f"<{e} as core::convert::From<") for c in cs2)
+            builds = any(st[0] == "=" and st[2][0] == "agg" and st[2][1].get("k") == "adt" and st[2][1].get("adt") == e
+                         for b in fn2["body"]["blocks"] for st in b["s"])
+            ctx.check(delegates and not builds, "C19.conversions", f"C19.conversions:{short}:From<{src}>", w.where(fn2),
+                      bad_msg=f"From<{src}> for {short} builds variants itself instead of delegating to the primary conversion: the two tables can disagree "
+                              f"(declared aliases, wildcard prefixes), so From<&str> and From<{src}> give different values for the same text")
         # ordering
         structural = []
         for tr in ("core::cmp::Ord>::cmp", "core::cmp::PartialOrd>::partial_cmp"):
